@@ -21,6 +21,9 @@ claimed = {
  "C04": dict(cat="proof", sec="7/C04",
    text="Deductive proof of the failover loop for all outcome sequences (no bound): loop invariants of RetryHandler.ExecuteWithRetry give attempts == old+attemptCount, |available| == |candidates| - attempts, candidates by unique name, each failed/skipped candidate removed (removeFailedEndpoint positional contract), nothing written to the client before a re-dispatch, gauges restored; the final error is built only when every candidate was tried (call-site assertion); a circuit-open skip or a connection error moves on, any other error returns. IsConnectionError is proved equal to a structural definition (net.Error / errno / the nine message patterns read from the code's table); MakeUserFriendlyError is proved to preserve that class in both directions per return site; the olla breaker pre-dial check is covered by C08.",
    note="The attempt function is abstracted by the functype contract core.ProxyFunc (assumed here, see C02 for the engines); uniqueNames(endpoints) is a precondition not established by configuration loading (two endpoints with the same name: not covered). fmt.Errorf/errors.Is/errors.As are trusted models with three listed axioms about net error types; numeric verbs in messages are rendered as \"0\". Three genuine defects were found by these obligations, replayed on the real code and fixed: circuit-open skip ended the request (F04a), timed-out connections lost their connection class (F04c), started responses were re-dispatched (F02, recorded under C02)."),
+ "C15": dict(cat="proof", sec="7/C15",
+   text="Deductive proof for every header map (any keys, any case, any multiplicity): after core.CopyHeaders no key of the upstream request is sensitive (canonical form in {Authorization, Cookie, X-Api-Key, X-Auth-Token, Proxy-Authorization}) or hop-by-hop (case-folded name in the eight-element table read from the code), every other client header is present with the identical value list, nothing else is added except the six Olla-maintained names (proved benign by a lemma), and existing Via / X-Forwarded-For values are all kept (upstream value starts with strings.Join of the client's values). Map-iteration invariant with a ghost visited set; isHopByHopHeader proved equal to its specification.",
+   note="http.CanonicalHeaderKey and EqualFold are uninterpreted functions evaluated by govc on literals (ASCII); http.Header methods and strings.Join are trusted models. That both engines call CopyHeaders (and nothing else that writes headers) on every upstream request is part of the engine contracts (C01/C02), not of this check. One genuine defect (second Via / X-Forwarded-For line dropped) was found, replayed and fixed."),
 }
 not_applicable = {}
 props = [json.loads(l) for l in open('/verif/properties.jsonl')]
